@@ -1,8 +1,87 @@
-import DendroModel.Basic.Tree
-open DendroModel
+import DendroModel.Model.C07
+open DendroModel DendroModel.C07
+
+/-- rooting flag: `R` rooted, `U` unrooted, `N` undefined -/
+def parseFlag (s : String) : Option (Option Bool) :=
+  if s == "R" then some (some true) else if s == "U" then some (some false) else if s == "N" then some none else none
+
+def showFlag : Option Bool → String
+  | some true => "R"
+  | some false => "U"
+  | none => "N"
+
+def parseBit (s : String) : Option Bool :=
+  if s == "1" then some true else if s == "0" then some false else none
+
+def out (flag : Option Bool) (t : T) : String := showFlag flag ++ " " ++ t.render
+
+def parseRanks (s : String) : Option (Nat → Nat) :=
+  match (s.splitOn ",").mapM String.toNat? with
+  | some l => let arr := l.toArray; some (fun i => arr.getD i 0)
+  | none => none
 
 def handle (ws : List String) : String :=
   match ws with
+  | "reseed" :: f :: c :: s :: tgt :: rest =>
+    match parseFlag f, parseBit c, parseBit s, tgt.toNat?, parseTree rest with
+    | some f, some c, some s, some tgt, some (t, []) =>
+      if contains tgt t then let r := reseedAt f c s tgt t; out r.2 r.1 else "bad-target"
+    | _, _, _, _, _ => "bad-op"
+  | "rerootnode" :: f :: s :: tgt :: rest =>
+    match parseFlag f, parseBit s, tgt.toNat?, parseTree rest with
+    | some _, some s, some tgt, some (t, []) =>
+      if contains tgt t then let r := rerootAtNode s tgt t; out r.2 r.1 else "bad-target"
+    | _, _, _, _ => "bad-op"
+  | "rerootedge" :: f :: s :: h :: l1 :: l2 :: nw :: rest =>
+    match parseFlag f, parseBit s, h.toNat?, parseOLen l1, parseOLen l2, nw.toNat?, parseTree rest with
+    | some _, some s, some h, some l1, some l2, some nw, some (t, []) =>
+      if contains nw t then "bad-newid"
+      else match parentOf h t with
+        | none => "bad-target"
+        | some _ => let r := rerootAtEdge s h nw l1 l2 t; out r.2 r.1
+    | _, _, _, _, _, _, _ => "bad-op"
+  | "midpoint" :: f :: s :: a :: b :: nw :: rest =>
+    match parseFlag f, parseBit s, a.toNat?, b.toNat?, nw.toNat?, parseTree rest with
+    | some _, some s, some a, some b, some nw, some (t, []) =>
+      if contains nw t then "bad-newid"
+      else match rerootAtMidpoint s a b nw t with
+        | some r => out r.2 r.1
+        | none => "AssertionError"
+    | _, _, _, _, _, _ => "bad-op"
+  | "outgroup" :: f :: s :: og :: rest =>
+    match parseFlag f, parseBit s, og.toNat?, parseTree rest with
+    | some f, some s, some og, some (t, []) =>
+      match toOutgroup f s og t with
+      | some r => out r.2 r.1
+      | none => "AssertionError"
+    | _, _, _, _ => "bad-op"
+  | "reorient" :: f :: pick :: ranks :: rest =>
+    match parseFlag f, pick.toNat?, parseRanks ranks, parseTree rest with
+    | some f, some pick, some rk, some (t, []) =>
+      match reorient f pick rk t with
+      | some r => out r.2 r.1
+      | none => "bad-target"
+    | _, _, _, _ => "bad-op"
+  | "rotate" :: f :: ranks :: rest =>
+    match parseFlag f, parseRanks ranks, parseTree rest with
+    | some f, some rk, some (t, []) => out f (rotate rk t)
+    | _, _, _ => "bad-op"
+  | "ladderize" :: f :: asc :: rest =>
+    match parseFlag f, parseBit asc, parseTree rest with
+    | some f, some asc, some (t, []) => out f (ladderize asc t)
+    | _, _, _ => "bad-op"
+  | "reorder" :: f :: asc :: rest =>
+    match parseFlag f, parseBit asc, parseTree rest with
+    | some f, some asc, some (t, []) => out f (reorder asc t)
+    | _, _, _ => "bad-op"
+  | "midwhere" :: a :: b :: rest =>
+    match a.toNat?, b.toNat?, parseTree rest with
+    | some a, some b, some (t, []) =>
+      match midpointOf a b t with
+      | .onEdge h x => s!"edge {h} {x.render}"
+      | .onNode n => s!"node {n}"
+      | .fail => "fail"
+    | _, _, _ => "bad-op"
   | _ => "bad-op"
 
 def main : IO Unit := do driverLoop (← IO.getStdin) handle
